@@ -139,6 +139,9 @@ def handle_trace_data_thread_terminate_pid(parser, events):
 
 
 def handle_trace_string_global(parser, events):
+    if not events[0].func_qualifier & DgbFuncQual.DBG_FUNC_START.value:
+        # A continuation record of a multi-record string, dispatched on its own.
+        return None
     debugid = 0
     str_id = 0
     vstr = b''
